@@ -451,6 +451,9 @@ func (c *Cond) Eval(item val.Item, values val.Item) Res {
 		if lo.present && hi.present && (lo.v.K != hi.v.K || !orderable(lo.v.K) || !orderable(hi.v.K)) {
 			return F | R
 		}
+		if (x.present && !orderable(x.v.K)) || (lo.present && !orderable(lo.v.K)) || (hi.present && !orderable(hi.v.K)) {
+			return F | R // an operand of a non-orderable type: false or rejected (see evalCmp)
+		}
 		if !x.present || !lo.present || !hi.present {
 			return F
 		}
